@@ -324,6 +324,9 @@ def run(chk, replay=None):
                             ojobs.append(("RelK", n, np_, L, 1 + (k % 3), X, chk.seed * 7919 + k))
             if tier == "thorough":  # n = 3 needs the 20-30 s skeletons: keep the list short
                 ojobs = [j for j in ojobs if j[1] < 3 or (j[2] in (1, 3) and j[3] in (0, 2, 4))]
+            else:
+                # quick: one three-channel observation of the non-relativistic K-matrix (the top of the quantified range; 20-30 s)
+                ojobs.append(("NRK", 3, 1, 0, 1, "none", chk.seed * 7919 + 999))
         if replay and replay.get("case", {}).get("kind") in ("param", "compose", "obs", "obsb"):
             c = replay["case"]
             pjobs = [tuple(c["job"])] if c["kind"] == "param" else []
